@@ -442,4 +442,380 @@ Proof.
       as [a w3].
     destruct a; inversion Ha; subst; reflexivity.
 Qed.
+
+(* ------------------------------------------------------------------ the answered attempt *)
+Lemma new_events_evolves n (w0 w w' : world E) :
+  wtrace w0 = wtrace w -> evolves n w0 w' -> count_tx (new_events w w') = n.
+Proof.
+  intros Ht (_ & _ & _ & _ & tr & Htr & Hc).
+  unfold new_events. rewrite Htr, Ht, skipn_length_app. exact Hc.
+Qed.
+
+Lemma ack_check req pa d name :
+  ack_names pa req -> build_with_data sk ack_kind pa = Ok d ->
+  check_ack_nak req (mkRFrame name CID_ACK pa d) = IsAck.
+Proof.
+  intros [rest ->] Hb. unfold build_with_data, ack_kind, decode in Hb.
+  cbn [fresh_fields map fst snd default_val unpack_fields unpack_item firstn skipn width bind] in Hb.
+  unfold unpack_int in Hb. cbn [length Nat.eqb negb andb le_dec bind] in Hb.
+  inversion Hb; subst d. clear Hb.
+  unfold check_ack_nak. cbn [rf_cid rf_dec dec_getf].
+  change (cid_eqb CID_ACK CID_ACK) with true. cbv iota.
+  cbn [getf String.eqb Ascii.eqb Bool.eqb].
+  rewrite !N.add_0_r, !Z.eqb_refl. reflexivity.
+Qed.
+
+Lemma set_attempt_answer fuel (mga : bool) req payload (w0 : world E) k wk w1 evs e' fl c i pl name rk d n :
+  failed_attempts B sk fuel (if mga then RSetMga else RSet) req payload k w0 wk ->
+  send B (do_flush B wk) req payload = (true, w1) ->
+  rx_unfold B (wenv w1) (length evs) = (evs, e') ->
+  filt (sparser (wsrv w0)) = Some fl -> In (c, i) fl -> (c, i) <> CID_CRC_ERROR ->
+  delivers fl (wnow w1) (wnow w1 + sdelay (wsrv w1)) evs c i pl ->
+  reg_lookup (sreg (wsrv w1)) (c, i) = Some (name, rk) -> build_with_data sk rk pl = Ok d ->
+  (length evs <= fuel)%nat ->
+  (if mga then check_mga (mkRFrame name (c, i) pl d)
+   else match check_ack_nak req (mkRFrame name (c, i) pl d) with IsOther => false | _ => true end) = true ->
+  exists w', set_attempts B sk fuel (k + S n)%nat mga req payload w0
+             = (Return (Some (mkRFrame name (c, i) pl d)), w')
+    /\ evolves (S k) w0 w'.
+Proof.
+  intros Hfa Hs Hun Hf Hin Hcrc Hdel Hreg Hb Hfuel Hacc.
+  rewrite (skip_failed_set_in fuel mga req payload (S n) k w0 wk Hfa).
+  cbn [set_attempts]. rewrite Hs.
+  assert (Hev : evolves (S k) w0 (purge w1)).
+  { rewrite <- Nat.add_1_r.
+    apply (evolves_trans k 1 w0 wk _ (failed_evolves _ _ _ _ _ _ _ Hfa)).
+    apply (evolves_trans0 1 wk w1 _ (flush_send_evolves _ _ _ _ _ Hs)). apply purge_evolves. }
+  destruct (wait_delivers_in fuel (wnow (purge w1) + sdelay (wsrv (purge w1))) (purge w1)
+              evs e' fl c i pl name rk d) as (w' & Hw & _); try assumption; try reflexivity.
+  { destruct Hev as (Hfl & _). rewrite Hfl. exact Hf. }
+  rewrite Hw. cbv zeta. rewrite Hacc.
+  exists w'. split; [reflexivity|].
+  exact (evolves_trans0 (S k) w0 _ w' Hev (wait_evolves_eq _ _ _ _ _ Hw)).
+Qed.
+
+Lemma poll_attempt_answer fuel req payload (w0 : world E) k wk w1 f w2 n :
+  failed_attempts B sk fuel RPoll req payload k w0 wk ->
+  send B (do_flush B wk) req payload = (true, w1) ->
+  poll_phase B sk fuel req false None (wnow (purge w1) + sdelay (wsrv (purge w1))) (purge w1) = (AOk f, w2) ->
+  exists w', poll_attempts B sk fuel (k + S n)%nat req payload w0 = (Return (Some f), w')
+    /\ evolves (S k) w0 w'.
+Proof.
+  intros Hfa Hs Hp.
+  rewrite (skip_failed_poll_in fuel req payload (S n) k w0 wk Hfa).
+  cbn [poll_attempts]. rewrite Hs, Hp.
+  exists w2. split; [reflexivity|].
+  rewrite <- Nat.add_1_r.
+  apply (evolves_trans k 1 w0 wk _ (failed_evolves _ _ _ _ _ _ _ Hfa)).
+  apply (evolves_trans0 1 wk w1 _ (flush_send_evolves _ _ _ _ _ Hs)).
+  apply (evolves_trans0 0 w1 (purge w1) w2 (purge_evolves w1)).
+  exact (poll_phase_evolves_eq _ _ _ _ _ _ _ _ Hp).
+Qed.
+
+Lemma cid_eqb_refl (c : cid) : cid_eqb c c = true.
+Proof. apply cid_eqb_eq. reflexivity. Qed.
+
+Lemma poll_filter_self c : In c (poll_filter c).
+Proof. unfold poll_filter. destruct (fst c =? CLASS_CFG); left; reflexivity. Qed.
+
+Lemma poll_filter_ack c : (fst c =? CLASS_CFG) = true -> In (5, 1) (poll_filter c).
+Proof. intros H. unfold poll_filter. rewrite H. right; left; reflexivity. Qed.
+
+(* the waiting part of a poll attempt: response alone ... *)
+Lemma poll_phase_plain fuel c i deadline (w : world E) evs e' pl name rk d :
+  (c =? CLASS_CFG) = false -> (c, i) <> CID_CRC_ERROR ->
+  rx_unfold B (wenv w) (length evs) = (evs, e') ->
+  st (sparser (wsrv w)) = INIT -> queue (sparser (wsrv w)) = [] ->
+  filt (sparser (wsrv w)) = Some (poll_filter (c, i)) ->
+  delivers (poll_filter (c, i)) (wnow w) deadline evs c i pl ->
+  reg_lookup (sreg (wsrv w)) (c, i) = Some (name, rk) -> build_with_data sk rk pl = Ok d ->
+  (1 <= fuel)%nat -> (length evs <= fuel)%nat ->
+  exists w', poll_phase B sk fuel (c, i) false None deadline w = (AOk (mkRFrame name (c, i) pl d), w').
+Proof.
+  intros Hcfg Hcrc Hun Hst Hq Hf Hdel Hreg Hb Hf1 Hfuel.
+  destruct fuel as [|k]; [lia|].
+  destruct (wait_delivers_in (S k) deadline w evs e' (poll_filter (c, i)) c i pl name rk d)
+    as (w' & Hw & _); try assumption.
+  { apply poll_filter_self. }
+  cbn [poll_phase]. rewrite Hw. cbn [negb rf_cid fst].
+  rewrite cid_eqb_refl, Hcfg. exists w'. reflexivity.
+Qed.
+
+(* ... or response, then its ACK-ACK in a waiting period of its own *)
+Lemma poll_phase_cfg fuel c i (w : world E) evs1 e1 evs2 e2 pl name rk d pa da :
+  (c =? CLASS_CFG) = true ->
+  rx_unfold B (wenv w) (length evs1) = (evs1, e1) ->
+  st (sparser (wsrv w)) = INIT -> queue (sparser (wsrv w)) = [] ->
+  filt (sparser (wsrv w)) = Some (poll_filter (c, i)) ->
+  delivers (poll_filter (c, i)) (wnow w) (wnow w + sdelay (wsrv w)) evs1 c i pl ->
+  reg_lookup (sreg (wsrv w)) (c, i) = Some (name, rk) -> build_with_data sk rk pl = Ok d ->
+  rx_unfold B e1 (length evs2) = (evs2, e2) ->
+  delivers (poll_filter (c, i)) (wnow w + time_of evs1) (wnow w + time_of evs1 + sdelay (wsrv w)) evs2 5 1 pa ->
+  ack_names pa (c, i) ->
+  reg_lookup (sreg (wsrv w)) CID_ACK = Some ("UbxAckAck"%string, ack_kind) ->
+  build_with_data sk ack_kind pa = Ok da ->
+  (length evs1 <= fuel)%nat -> (2 <= fuel)%nat -> (S (length evs2) <= fuel)%nat ->
+  exists w', poll_phase B sk fuel (c, i) false None (wnow w + sdelay (wsrv w)) w
+             = (AOk (mkRFrame name (c, i) pl d), w').
+Proof.
+  intros Hcfg Hun1 Hst Hq Hf Hdel1 Hreg Hb Hun2 Hdel2 Hnames Hrack Hback Hfuel1 Hf2 Hfuel2.
+  assert (Hcrc : (c, i) <> CID_CRC_ERROR).
+  { intros Heq. inversion Heq; subst c. discriminate Hcfg. }
+  destruct fuel as [|k]; [lia|].
+  destruct (wait_delivers_in (S k) (wnow w + sdelay (wsrv w)) w evs1 e1 (poll_filter (c, i)) c i pl name rk d)
+    as (w1 & Hw1 & _ & Henv1 & Hnow1 & Hst1 & Hq1 & Hfl1 & Hsr1 & _ & Hde1); try assumption.
+  { apply poll_filter_self. }
+  cbn [poll_phase]. rewrite Hw1. cbn [negb rf_cid fst].
+  rewrite cid_eqb_refl, Hcfg.
+  destruct k as [|k']; [lia|].
+  destruct (wait_delivers_in (S k') (wnow w1 + sdelay (wsrv w1)) w1 evs2 e2 (poll_filter (c, i)) 5 1 pa
+              "UbxAckAck"%string ack_kind da)
+    as (w2 & Hw2 & _); try assumption.
+  { rewrite Henv1. exact Hun2. }
+  { apply poll_filter_ack. exact Hcfg. }
+  { discriminate. }
+  { rewrite Hnow1, Hde1. exact Hdel2. }
+  { rewrite Hsr1. exact Hrack. }
+  { lia. }
+  cbn [poll_phase]. rewrite Hw2. cbn [negb].
+  change (5, 1) with CID_ACK. rewrite (ack_check (c, i) pa da _ Hnames Hback).
+  exists w2. reflexivity.
+Qed.
+Lemma attempt_start_evolves fuel o req payload (w0 : world E) k wk w1 :
+  failed_attempts B sk fuel o req payload k w0 wk ->
+  send B (do_flush B wk) req payload = (true, w1) ->
+  evolves (S k) w0 (purge w1).
+Proof.
+  intros Hfa Hs. rewrite <- Nat.add_1_r.
+  apply (evolves_trans k 1 w0 wk _ (failed_evolves _ _ _ _ _ _ _ Hfa)).
+  apply (evolves_trans0 1 wk w1 _ (flush_send_evolves _ _ _ _ _ Hs)). apply purge_evolves.
+Qed.
+
+Lemma poll_phase_plain_req fuel (req : cid) deadline (w : world E) evs e' pl name rk d :
+  is_cfg req = false -> req <> CID_CRC_ERROR ->
+  rx_unfold B (wenv w) (length evs) = (evs, e') ->
+  st (sparser (wsrv w)) = INIT -> queue (sparser (wsrv w)) = [] ->
+  filt (sparser (wsrv w)) = Some (poll_filter req) ->
+  delivers (poll_filter req) (wnow w) deadline evs (fst req) (snd req) pl ->
+  reg_lookup (sreg (wsrv w)) req = Some (name, rk) -> build_with_data sk rk pl = Ok d ->
+  (1 <= fuel)%nat -> (length evs <= fuel)%nat ->
+  exists w', poll_phase B sk fuel req false None deadline w = (AOk (mkRFrame name req pl d), w').
+Proof. destruct req as [c i]. apply poll_phase_plain. Qed.
+
+Lemma poll_phase_cfg_req fuel (req : cid) (w : world E) evs1 e1 evs2 e2 pl name rk d pa da :
+  is_cfg req = true ->
+  rx_unfold B (wenv w) (length evs1) = (evs1, e1) ->
+  st (sparser (wsrv w)) = INIT -> queue (sparser (wsrv w)) = [] ->
+  filt (sparser (wsrv w)) = Some (poll_filter req) ->
+  delivers (poll_filter req) (wnow w) (wnow w + sdelay (wsrv w)) evs1 (fst req) (snd req) pl ->
+  reg_lookup (sreg (wsrv w)) req = Some (name, rk) -> build_with_data sk rk pl = Ok d ->
+  rx_unfold B e1 (length evs2) = (evs2, e2) ->
+  delivers (poll_filter req) (wnow w + time_of evs1) (wnow w + time_of evs1 + sdelay (wsrv w)) evs2 5 1 pa ->
+  ack_names pa req ->
+  reg_lookup (sreg (wsrv w)) CID_ACK = Some ("UbxAckAck"%string, ack_kind) ->
+  build_with_data sk ack_kind pa = Ok da ->
+  (length evs1 <= fuel)%nat -> (2 <= fuel)%nat -> (S (length evs2) <= fuel)%nat ->
+  exists w', poll_phase B sk fuel req false None (wnow w + sdelay (wsrv w)) w
+             = (AOk (mkRFrame name req pl d), w').
+Proof. destruct req as [c i]. apply poll_phase_cfg. Qed.
+
+Lemma reg_lookup_registered r c x : reg_lookup (reg_register r c x) c = Some (fst x, snd x).
+Proof.
+  unfold reg_register. cbn [reg_lookup]. rewrite cid_eqb_refl, <- surjective_pairing. reflexivity.
+Qed.
 End Good.
+
+(* ================================================================== the statements of C06 *)
+Theorem wait_delivers : forall E (B : backend E) sk fuel deadline w evs e' fl c i pl name rk d,
+  rx_unfold B (wenv w) (length evs) = (evs, e') ->
+  st (sparser (wsrv w)) = INIT -> queue (sparser (wsrv w)) = [] -> filt (sparser (wsrv w)) = Some fl ->
+  In (c, i) fl -> (c, i) <> CID_CRC_ERROR ->
+  delivers fl (wnow w) deadline evs c i pl ->
+  reg_lookup (sreg (wsrv w)) (c, i) = Some (name, rk) -> build_with_data sk rk pl = Ok d ->
+  (length evs <= fuel)%nat ->
+  exists w', wait B sk fuel deadline w = (Some (Some (mkRFrame name (c, i) pl d)), w')
+    /\ wtrace w' = wtrace w ++ map (fun ev => Rx (fst ev) (snd ev)) evs
+    /\ wenv w' = e' /\ wnow w' = wnow w + time_of evs
+    /\ st (sparser (wsrv w')) = INIT /\ queue (sparser (wsrv w')) = []
+    /\ filt (sparser (wsrv w')) = Some fl /\ sreg (wsrv w') = sreg (wsrv w)
+    /\ sretries (wsrv w') = sretries (wsrv w) /\ sdelay (wsrv w') = sdelay (wsrv w).
+Proof. intros E B sk. exact (wait_delivers_in B sk). Qed.
+
+Theorem skip_failed_set : forall E (B : backend E) sk fuel (mga : bool) req payload n k w wk,
+  failed_attempts B sk fuel (if mga then RSetMga else RSet) req payload k w wk ->
+  set_attempts B sk fuel (k + n) mga req payload w = set_attempts B sk fuel n mga req payload wk
+  /\ exists tr, wtrace wk = wtrace w ++ tr /\ count_tx tr = k.
+Proof.
+  intros E B sk fuel mga req payload n k w wk Hfa. split.
+  - apply skip_failed_set_in. exact Hfa.
+  - apply failed_evolves in Hfa. destruct Hfa as (_ & _ & _ & _ & Htr). exact Htr.
+Qed.
+
+Theorem skip_failed_poll : forall E (B : backend E) sk fuel req payload n k w wk,
+  failed_attempts B sk fuel RPoll req payload k w wk ->
+  poll_attempts B sk fuel (k + n) req payload w = poll_attempts B sk fuel n req payload wk
+  /\ exists tr, wtrace wk = wtrace w ++ tr /\ count_tx tr = k.
+Proof.
+  intros E B sk fuel req payload n k w wk Hfa. split.
+  - apply skip_failed_poll_in. exact Hfa.
+  - apply failed_evolves in Hfa. destruct Hfa as (_ & _ & _ & _ & Htr). exact Htr.
+Qed.
+
+Lemma retries_split k r : (k < S r)%nat -> S r = (k + S (r - k))%nat.
+Proof. lia. Qed.
+
+Theorem set_answer_after_k : forall E (B : backend E) sk fuel rq payload k w wk w1 evs e' i pa d,
+  pack_body (rq_body rq) = Ok payload ->
+  (k < S (sretries (wsrv w)))%nat ->
+  let w0 := with_parser w (set_filters (sparser (wsrv w)) [CID_ACK; CID_NAK]) in
+  failed_attempts B sk fuel RSet (rq_cid rq) payload k w0 wk ->
+  send B (do_flush B wk) (rq_cid rq) payload = (true, w1) ->
+  rx_unfold B (wenv w1) (length evs) = (evs, e') ->
+  delivers [CID_ACK; CID_NAK] (wnow w1) (wnow w1 + sdelay (wsrv w1)) evs 5 i pa ->
+  (i = 1 /\ ack_names pa (rq_cid rq) \/ i = 0) ->
+  reg_lookup (sreg (wsrv w1)) (5, i) = Some ((if i =? 1 then "UbxAckAck"%string else "UbxAckNak"%string), ack_kind) ->
+  build_with_data sk ack_kind pa = Ok d ->
+  (length evs <= fuel)%nat ->
+  exists w', do_request B sk fuel RSet rq w
+             = (Return (Some (mkRFrame (if i =? 1 then "UbxAckAck"%string else "UbxAckNak"%string) (5, i) pa d)), w')
+    /\ count_tx (new_events w w') = S k.
+Proof.
+  intros E B sk fuel rq payload k w wk w1 evs e' i pa d Hpack Hk w0 Hfa Hs Hun Hdel Hi Hreg Hb Hfuel.
+  cbn [do_request]. unfold Request.set. cbv zeta. fold w0. rewrite Hpack.
+  change (sretries (wsrv w0)) with (sretries (wsrv w)).
+  rewrite (retries_split k _ Hk).
+  destruct (set_attempt_answer B sk fuel false (rq_cid rq) payload w0 k wk w1 evs e' [CID_ACK; CID_NAK]
+              5 i pa (if i =? 1 then "UbxAckAck"%string else "UbxAckNak"%string) ack_kind d
+              (sretries (wsrv w) - k)) as (w' & Hw & Hev); try assumption; try reflexivity.
+  - destruct Hi as [[-> _] | ->]; [left | right; left]; reflexivity.
+  - discriminate.
+  - destruct Hi as [[-> Hn] | ->].
+    + change (5, 1) with CID_ACK. rewrite (ack_check sk (rq_cid rq) pa d _ Hn Hb). reflexivity.
+    + reflexivity.
+  - exists w'. split; [exact Hw|].
+    apply (new_events_evolves (S k) w0 w w'); [reflexivity | exact Hev].
+Qed.
+
+Theorem mga_answer_after_k : forall E (B : backend E) sk fuel rq payload k w wk w1 evs e' pa d,
+  pack_body (rq_body rq) = Ok payload ->
+  (k < S (sretries (wsrv w)))%nat ->
+  let w0 := with_parser w (set_filter (sparser (wsrv w)) CID_MGA_ACK) in
+  failed_attempts B sk fuel RSetMga (rq_cid rq) payload k w0 wk ->
+  send B (do_flush B wk) (rq_cid rq) payload = (true, w1) ->
+  rx_unfold B (wenv w1) (length evs) = (evs, e') ->
+  delivers [CID_MGA_ACK] (wnow w1) (wnow w1 + sdelay (wsrv w1)) evs 19 96 pa ->
+  reg_lookup (sreg (wsrv w1)) CID_MGA_ACK = Some ("UbxMgaAckData0"%string, mga_kind) ->
+  build_with_data sk mga_kind pa = Ok d -> dec_getf d "type" = Some (VInt 1) ->
+  (length evs <= fuel)%nat ->
+  exists w', do_request B sk fuel RSetMga rq w
+             = (Return (Some (mkRFrame "UbxMgaAckData0"%string CID_MGA_ACK pa d)), w')
+    /\ count_tx (new_events w w') = S k.
+Proof.
+  intros E B sk fuel rq payload k w wk w1 evs e' pa d Hpack Hk w0 Hfa Hs Hun Hdel Hreg Hb Hty Hfuel.
+  cbn [do_request]. unfold set_mga. cbv zeta. fold w0. rewrite Hpack.
+  change (sretries (wsrv w0)) with (sretries (wsrv w)).
+  rewrite (retries_split k _ Hk).
+  destruct (set_attempt_answer B sk fuel true (rq_cid rq) payload w0 k wk w1 evs e' [CID_MGA_ACK]
+              19 96 pa "UbxMgaAckData0"%string mga_kind d
+              (sretries (wsrv w) - k)) as (w' & Hw & Hev); try assumption; try reflexivity.
+  - left; reflexivity.
+  - discriminate.
+  - unfold check_mga. cbn [rf_cid rf_dec]. rewrite Hty. reflexivity.
+  - exists w'. split; [exact Hw|].
+    apply (new_events_evolves (S k) w0 w w'); [reflexivity | exact Hev].
+Qed.
+
+Theorem poll_answer_after_k : forall E (B : backend E) sk fuel rq payload k w wk w1 evs e' pl d,
+  pack_body (rq_body rq) = Ok payload ->
+  (k < S (sretries (wsrv w)))%nat -> is_cfg (rq_cid rq) = false -> rq_cid rq <> CID_CRC_ERROR ->
+  let w0 := with_parser (with_reg w (reg_register (sreg (wsrv w)) (rq_cid rq) (rq_resp rq)))
+                        (set_filters (sparser (wsrv w)) (poll_filter (rq_cid rq))) in
+  failed_attempts B sk fuel RPoll (rq_cid rq) payload k w0 wk ->
+  send B (do_flush B wk) (rq_cid rq) payload = (true, w1) ->
+  rx_unfold B (wenv w1) (length evs) = (evs, e') ->
+  delivers (poll_filter (rq_cid rq)) (wnow w1) (wnow w1 + sdelay (wsrv w1)) evs
+           (fst (rq_cid rq)) (snd (rq_cid rq)) pl ->
+  build_with_data sk (snd (rq_resp rq)) pl = Ok d ->
+  (2 * length evs + 4 <= fuel)%nat ->
+  exists w', do_request B sk fuel RPoll rq w
+             = (Return (Some (mkRFrame (fst (rq_resp rq)) (rq_cid rq) pl d)), w')
+    /\ count_tx (new_events w w') = S k.
+Proof.
+  intros E B sk fuel rq payload k w wk w1 evs e' pl d Hpack Hk Hcfg Hcrc w0 Hfa Hs Hun Hdel Hb Hfuel.
+  cbn [do_request].
+  change (poll B sk fuel rq w)
+    with (match pack_body (rq_body rq) with
+          | Raise e => (Raised e, w0)
+          | Ok payload => poll_attempts B sk fuel (S (sretries (wsrv w))) (rq_cid rq) payload w0
+          end).
+  rewrite Hpack, (retries_split k _ Hk).
+  destruct (attempt_start_evolves B sk fuel RPoll (rq_cid rq) payload w0 k wk w1 Hfa Hs)
+    as (Hfl & Hsr & _).
+  assert (Hfilt : filt (sparser (wsrv (purge w1))) = Some (poll_filter (rq_cid rq))).
+  { rewrite Hfl. reflexivity. }
+  assert (Hreg : reg_lookup (sreg (wsrv (purge w1))) (rq_cid rq) = Some (fst (rq_resp rq), snd (rq_resp rq))).
+  { rewrite Hsr. apply reg_lookup_registered. }
+  destruct (poll_phase_plain_req B sk fuel (rq_cid rq) (wnow (purge w1) + sdelay (wsrv (purge w1)))
+              (purge w1) evs e' pl (fst (rq_resp rq)) (snd (rq_resp rq)) d
+              Hcfg Hcrc Hun eq_refl eq_refl Hfilt Hdel Hreg Hb) as (w2 & Hp); [lia | lia |].
+  destruct (poll_attempt_answer B sk fuel (rq_cid rq) payload w0 k wk w1 _ w2
+              (sretries (wsrv w) - k) Hfa Hs Hp) as (w' & Hw & Hev).
+  exists w'. split; [exact Hw|].
+  apply (new_events_evolves (S k) w0 w w'); [reflexivity | exact Hev].
+Qed.
+
+Theorem cfg_poll_answer_after_k : forall E (B : backend E) sk fuel rq payload k w wk w1
+    evs1 e1 evs2 e2 pl d pa da,
+  pack_body (rq_body rq) = Ok payload ->
+  (k < S (sretries (wsrv w)))%nat -> is_cfg (rq_cid rq) = true ->
+  let w0 := with_parser (with_reg w (reg_register (sreg (wsrv w)) (rq_cid rq) (rq_resp rq)))
+                        (set_filters (sparser (wsrv w)) (poll_filter (rq_cid rq))) in
+  failed_attempts B sk fuel RPoll (rq_cid rq) payload k w0 wk ->
+  send B (do_flush B wk) (rq_cid rq) payload = (true, w1) ->
+  rx_unfold B (wenv w1) (length evs1) = (evs1, e1) ->
+  delivers (poll_filter (rq_cid rq)) (wnow w1) (wnow w1 + sdelay (wsrv w1)) evs1
+           (fst (rq_cid rq)) (snd (rq_cid rq)) pl ->
+  build_with_data sk (snd (rq_resp rq)) pl = Ok d ->
+  rx_unfold B e1 (length evs2) = (evs2, e2) ->
+  delivers (poll_filter (rq_cid rq)) (wnow w1 + time_of evs1)
+           (wnow w1 + time_of evs1 + sdelay (wsrv w1)) evs2 5 1 pa ->
+  ack_names pa (rq_cid rq) ->
+  reg_lookup (sreg (wsrv w1)) CID_ACK = Some ("UbxAckAck"%string, ack_kind) ->
+  build_with_data sk ack_kind pa = Ok da ->
+  (2 * (length evs1 + length evs2) + 4 <= fuel)%nat ->
+  exists w', do_request B sk fuel RPoll rq w
+             = (Return (Some (mkRFrame (fst (rq_resp rq)) (rq_cid rq) pl d)), w')
+    /\ count_tx (new_events w w') = S k.
+Proof.
+  intros E B sk fuel rq payload k w wk w1 evs1 e1 evs2 e2 pl d pa da
+         Hpack Hk Hcfg w0 Hfa Hs Hun1 Hdel1 Hb Hun2 Hdel2 Hnames Hrack Hback Hfuel.
+  cbn [do_request].
+  change (poll B sk fuel rq w)
+    with (match pack_body (rq_body rq) with
+          | Raise e => (Raised e, w0)
+          | Ok payload => poll_attempts B sk fuel (S (sretries (wsrv w))) (rq_cid rq) payload w0
+          end).
+  rewrite Hpack, (retries_split k _ Hk).
+  destruct (attempt_start_evolves B sk fuel RPoll (rq_cid rq) payload w0 k wk w1 Hfa Hs)
+    as (Hfl & Hsr & _).
+  assert (Hfilt : filt (sparser (wsrv (purge w1))) = Some (poll_filter (rq_cid rq))).
+  { rewrite Hfl. reflexivity. }
+  assert (Hreg : reg_lookup (sreg (wsrv (purge w1))) (rq_cid rq) = Some (fst (rq_resp rq), snd (rq_resp rq))).
+  { rewrite Hsr. apply reg_lookup_registered. }
+  destruct (poll_phase_cfg_req B sk fuel (rq_cid rq) (purge w1) evs1 e1 evs2 e2 pl
+              (fst (rq_resp rq)) (snd (rq_resp rq)) d pa da
+              Hcfg Hun1 eq_refl eq_refl Hfilt Hdel1 Hreg Hb Hun2 Hdel2 Hnames Hrack Hback)
+    as (w2 & Hp); [lia | lia | lia |].
+  destruct (poll_attempt_answer B sk fuel (rq_cid rq) payload w0 k wk w1 _ w2
+              (sretries (wsrv w) - k) Hfa Hs Hp) as (w' & Hw & Hev).
+  exists w'. split; [exact Hw|].
+  apply (new_events_evolves (S k) w0 w w'); [reflexivity | exact Hev].
+Qed.
+
+Print Assumptions wait_delivers.
+Print Assumptions skip_failed_set.
+Print Assumptions skip_failed_poll.
+Print Assumptions set_answer_after_k.
+Print Assumptions mga_answer_after_k.
+Print Assumptions poll_answer_after_k.
+Print Assumptions cfg_poll_answer_after_k.
